@@ -554,8 +554,10 @@ func (m *Manager) resetGroupEarlierUsage(gt *GroupTracker, queuePath string) {
 			zap.Strings("queue path", hierarchy))
 		appUsersMap := gt.decreaseAllTrackedResourceUsage(hierarchy)
 		for app, u := range appUsersMap {
-			ut := m.userTrackers[u]
-			delete(ut.appGroupTrackers, app)
+			// the user tracker is removed when the user has no usage left: the group tracker can outlive it
+			if ut := m.userTrackers[u]; ut != nil {
+				delete(ut.appGroupTrackers, app)
+			}
 		}
 		gt.clearLimits(queuePath)
 		// Is there any running applications in end queue of this queue path? If not, then remove the linkage between end queue and its immediate parent
